@@ -560,6 +560,17 @@ func TestC05(t *testing.T) {
 	hx.Rapid(r, t, "api_sequences", r.N(1500, 20000), genC05API, c05APIProp(t, r))
 	hx.Rapid(r, t, "dial_retry_storm", r.N(60, 1500), genC05Storm, c05StormProp(t, r, "dial_retry_storm"))
 	// a stop that lands in the write of a timer-driven KEEPALIVE / Hold Timer Expired (shared with C10)
+	// two connections of one peer and every arrival order of their OPENs and KEEPALIVEs (C07's
+	// scripts): whatever the outcome, nothing wedges
+	hx.Enum(r, t, "collision_orders", 0, iter.Seq[c07Case](func(yield func(c07Case) bool) {
+		for _, ord := range c07Orders() {
+			for _, cfg := range c07Cfgs[:4] {
+				if !yield(c07Case{LocalID: cfg.lid, RemoteID: cfg.rid, LocalAS: cfg.las, RemoteAS: cfg.ras, Bursts: ord}) {
+					return
+				}
+			}
+		}
+	}), c07Prop(t, r, "collision_orders"))
 	hx.Enum(r, t, "stop_when_session_timer_is_due", 0, func(yield func(c10TimerDue) bool) {
 		for _, timer := range []string{"keepalive", "hold"} {
 			for _, api := range []string{"close", "del"} {
